@@ -1,7 +1,10 @@
 package props
 
 import (
+	"errors"
 	"fmt"
+	"math/big"
+	"net"
 	"reflect"
 	"time"
 
@@ -29,7 +32,9 @@ func c03Reps(k spec.Kind) []any {
 	t := gen.BaseTime
 	switch k {
 	case spec.String:
-		return []any{"plain", "  padded  ", "é世", 42, int64(-7), int32(3), 2.5, 1e21, 0.00001, 1e20, float32(1.5), float32(0.1), float32(16777217), float32(1e-7), float32(3.4e38), 1e-5, 123456789.125, true, false, []any{1, "a"}, map[string]any{"k": 1}, t, uint8(200), 'x', []string{"a", "b"}, struct{ A int }{5}, complex(1, 2)}
+		return []any{"plain", "  padded  ", "é世", 42, int64(-7), int32(3), 2.5, 1e21, 0.00001, 1e20, float32(1.5), float32(0.1), float32(16777217), float32(1e-7), float32(3.4e38), 1e-5, 123456789.125, true, false, []any{1, "a"}, map[string]any{"k": 1}, t, uint8(200), 'x', []string{"a", "b"}, struct{ A int }{5}, complex(1, 2),
+			// types with their own text methods: %v asks Formatter first, then error, then Stringer
+			new(big.Float).SetFloat64(12345678901234.5), big.NewInt(-5), big.NewRat(1, 3), 90 * time.Second, c03ErrStringer{"v"}, &c03ErrStringer{"p"}, c03FmtStringer(7), net.IPv4(10, 0, 0, 1), c03Stringer{3}, errors.New("plain error"), time.UTC}
 	case spec.Int, spec.Int32, spec.Int64:
 		return []any{12, int32(13), int64(14), "15", "-16", "+17", 6.29, -6.99, 0.4, true, false, 0, "0", 1e6, float64(1 << 40), "007"}
 	case spec.Float32, spec.Float64:
@@ -41,6 +46,22 @@ func c03Reps(k spec.Kind) []any {
 	}
 	return nil
 }
+
+type c03ErrStringer struct{ s string }
+
+func (e c03ErrStringer) Error() string  { return "error-text-" + e.s }
+func (e c03ErrStringer) String() string { return "stringer-text-" + e.s }
+
+type c03FmtStringer int
+
+func (f c03FmtStringer) Format(st fmt.State, verb rune) {
+	fmt.Fprintf(st, "formatted<%d,%c>", int(f), verb)
+}
+func (f c03FmtStringer) String() string { return "stringer-text" }
+
+type c03Stringer struct{ n int }
+
+func (s c03Stringer) String() string { return fmt.Sprintf("S(%d)", s.n) }
 
 type c03cell struct {
 	name string
